@@ -227,6 +227,7 @@ private:
     // Statements //
     //------------//
     virtual Action visitCompoundStatement(const CompoundStatementSyntax*) override;
+    Action visitCompoundStatement_AtStatements(const CompoundStatementSyntax*);
 
     //--------//
     // Common //
